@@ -801,7 +801,7 @@ func staticCalleeName(com *ssa.CallCommon) string {
 		return com.Method.FullName()
 	}
 	if fn := com.StaticCallee(); fn != nil {
-		return fn.String()
+		return nameOf(fn)
 	}
 	if _, ok := com.Value.(*ssa.Builtin); ok {
 		return "builtin:" + com.Value.Name()
@@ -839,14 +839,14 @@ func (f *frame) calleeName(com *ssa.CallCommon) (abs string, callee *ssa.Functio
 		return com.Method.FullName(), nil
 	}
 	if fn := com.StaticCallee(); fn != nil {
-		return fn.String(), fn
+		return nameOf(fn), fn
 	}
 	s := f.vals[com.Value]
 	if s != nil && s.clos != nil {
-		return s.clos.fn.String(), s.clos.fn
+		return nameOf(s.clos.fn), s.clos.fn
 	}
 	if s != nil && s.bound != nil {
-		return s.bound.fn.String(), s.bound.fn
+		return nameOf(s.bound.fn), s.bound.fn
 	}
 	if n, ok := com.Value.Type().(*types.Named); ok {
 		return "dyn:" + types.TypeString(n, nil), nil
@@ -1320,16 +1320,16 @@ func (f *frame) runDefers(st *state, reach string) {
 			abs = com.Method.FullName()
 			args = append([]*sym{d.fnsym}, d.args...)
 		} else if fn := com.StaticCallee(); fn != nil {
-			abs, callee = fn.String(), fn
+			abs, callee = nameOf(fn), fn
 			args = d.args
 			if d.fnsym != nil && d.fnsym.clos != nil {
 				binds = d.fnsym.clos.bindings
 			}
 		} else if d.fnsym != nil && d.fnsym.clos != nil {
-			abs, callee = d.fnsym.clos.fn.String(), d.fnsym.clos.fn
+			abs, callee = nameOf(d.fnsym.clos.fn), d.fnsym.clos.fn
 			args, binds = d.args, d.fnsym.clos.bindings
 		} else if d.fnsym != nil && d.fnsym.bound != nil {
-			abs, callee = d.fnsym.bound.fn.String(), d.fnsym.bound.fn
+			abs, callee = nameOf(d.fnsym.bound.fn), d.fnsym.bound.fn
 			args = append([]*sym{d.fnsym.bound.recv}, d.args...)
 		} else {
 			abs, _ = f.calleeName(com)
@@ -1749,7 +1749,7 @@ func (f *frame) funcSetCall(abs string, args []*sym, st *state, reach string, po
 		cond := and(remaining, sel)
 		remaining = and(remaining, not(sel))
 		br := pre.clone()
-		r := f.applyCall(fn.String(), fn, args, nil, br, and(reach, cond), pos, rt)
+		r := f.applyCall(nameOf(fn), fn, args, nil, br, and(reach, cond), pos, rt)
 		conds = append(conds, vc.define("fs", "Bool", cond))
 		sts = append(sts, br)
 		if r != nil && r.tuple != nil {
@@ -1821,10 +1821,10 @@ func (vc *FnVC) validateFuncSet(c *Contract) string {
 							if s2, ok := in2.(*ssa.Store); ok {
 								if ia, ok := s2.Addr.(*ssa.IndexAddr); ok && ia.X == sl.X {
 									if fn, ok := s2.Val.(*ssa.Function); ok {
-										found[relName(fn.String(), c.Pkg)] = true
+										found[relName(nameOf(fn), c.Pkg)] = true
 									} else if ct, ok := s2.Val.(*ssa.ChangeType); ok {
 										if fn, ok := ct.X.(*ssa.Function); ok {
-											found[relName(fn.String(), c.Pkg)] = true
+											found[relName(nameOf(fn), c.Pkg)] = true
 										}
 									} else {
 										found["?"] = true
@@ -2023,7 +2023,7 @@ func (f *frame) applyCallbackFrame(c *Contract, rel string, args []*sym, pre, st
 		vc.havocAll(st, reach)
 		return
 	}
-	cc := vc.w.contractOf(cb.clos.fn.String())
+	cc := vc.w.contractOf(nameOf(cb.clos.fn))
 	if cc == nil {
 		vc.w.note("%s: callback %s handed to %s has no contract (modifies *)", vc.fnName, cb.clos.fn.String(), rel)
 		vc.havocAll(st, reach)
